@@ -215,6 +215,15 @@ def work(job):
                             if s.call(variant, *D.req_from_json(rq), history=hist[:-1], crash_is_violation=False) is None:
                                 break
                             r.stats['engine_language_switched'] += 1
+                        elif a < 0.735:
+                            # the caller parses a part of the text only (mmd_engine_parse_substring): what that call sets up for itself must not outlive it
+                            n = len(cur)
+                            st = rng.choice([0, 1, n // 3, n // 2]) if n else 0
+                            rq = D.req_to_json(variant, 'ENGINE', 0, 0, 0, sl | (12 << 4), [str(st).encode(), str(max(1, rng.randrange(max(1, n - st)) if n > st else 1)).encode()])
+                            hist.append(rq)
+                            if s.call(variant, *D.req_from_json(rq), history=hist[:-1], crash_is_violation=False) is None:
+                                break
+                            r.stats['engine_substring_parses'] += 1
                         elif a < 0.75:
                             rq = D.req_to_json(variant, 'ENGINE', 0, 0, 0, sl | (rng.choice([4, 5, 8]) << 4), [b''])
                             hist.append(rq)
@@ -292,6 +301,47 @@ def work_import(job):
     return r
 
 
+def work_outline_engine(job):
+    """an engine created over an OPML source with EXT_PARSE_OPML, converted several times: the first conversion replaces the source by the imported
+    text (documented); every conversion, first or later, must give what a fresh process gives for that OPML source in that format"""
+    seed, lo, hi = job
+    r = core.JobResult()
+    fresh = Fresh(r)
+    with core.Session(r) as s:
+        for i in range(lo, hi):
+            rng = core.job_rng(seed, ID, 'outline-engine', i)
+            docs = pool(core.job_rng(seed, ID, 'pool', i % 7))
+            src = docs[rng.randrange(len(docs))]
+            if len(src) > 20000:
+                continue
+            made = s.call('asan', 'CONVERT', 9, D.EXT_CLI, 0, 1 | (1 << 4), [src], crash_is_violation=False)
+            r.evaluations += 1
+            if made is None or made.status or not made.out or b'\0' in made.out:
+                continue
+            opml = made.out
+            ext = (D.EXT_CLI | D.EXT['PARSE_OPML']) & ~D.EXT['TRANSCLUDE']
+            s.driver('asan').restart()
+            hist = [D.req_to_json('asan', 'ENGINE', 0, ext, 0, 0 | (0 << 4), [opml])]
+            if s.call('asan', *D.req_from_json(hist[0]), crash_is_violation=False) is None:
+                continue
+            alive = True
+            for step in range(rng.randint(2, 5)):
+                f2 = rng.choice([0, 2, 5, 11, 0, 11])
+                rq = D.req_to_json('asan', 'ENGINE', f2, 0, 0, 0 | (3 << 4), [b''])
+                hist.append(rq)
+                rep = s.call('asan', *D.req_from_json(rq), history=hist[:-1], crash_is_violation=False)
+                r.evaluations += 1
+                if rep is None:
+                    alive = False
+                    break
+                r.stats['outline_engine_conversions'] += 1
+                compare(r, fresh, 'asan', hist, 'engine over an OPML source, conversion %d' % (step + 1), opml, f2, ext, 0, rep.out if rep.status == 0 else None, 'outline engine')
+            if alive:
+                s.call('asan', 'ENGINE', 0, 0, 0, 0 | (9 << 4), [b''], crash_is_violation=False)
+                r.distinct.add(core.h64('oe', i, seed))
+    return r
+
+
 def main():
     chk = core.Check(ID)
     n = chk.scale(2000, 60000)
@@ -321,4 +371,6 @@ def main():
     chk.run_jobs(work, [(chk.seed, lo, min(n, lo + chunk), kmax) for lo in range(0, n, chunk)])
     ni = chk.scale(640, 12000)
     chk.run_jobs(work_import, [(chk.seed, lo, min(ni, lo + 20)) for lo in range(0, ni, 20)])
+    no = chk.scale(320, 6000)
+    chk.run_jobs(work_outline_engine, [(chk.seed, lo, min(no, lo + 10)) for lo in range(0, no, 10)])
     return chk.finish()
